@@ -181,3 +181,55 @@ Proof.
   destruct (N.eqb_spec (dkind d0) k) as [E|E]; [|apply IH; exact H].
   injection H as <-. exact E.
 Qed.
+
+(* ---------- encodings are byte strings ---------- *)
+Lemma to_le_bytes k : forall n, bytes_ok (to_le k n) = true.
+Proof.
+  induction k as [|k IH]; intros n; cbn [to_le]; [reflexivity|].
+  rewrite bytes_ok_cons, IH. pose proof (N.mod_lt n 256).
+  destruct (N.ltb_spec (n mod 256) 256); [reflexivity|lia].
+Qed.
+
+Lemma put_varint4_bytes n : bytes_ok (put_varint 4 n) = true.
+Proof.
+  unfold put_varint. pose proof (sig_bytes_bound (4 - 1) n) as Hb.
+  destruct (Nat.leb_spec 2 (sig_bytes (4 - 1) n)) as [Hk|Hk].
+  - rewrite bytes_ok_cons, to_le_bytes.
+    destruct (N.ltb_spec (255 - N.of_nat (4 - sig_bytes (4 - 1) n)) 256); [reflexivity|lia].
+  - assert (sig_bytes (4 - 1) n = 1%nat) as H1 by lia. apply sig_bytes_one in H1 as [H1|H1]; [discriminate|].
+    change (N.of_nat 4) with 4.
+    assert (byte_ok n = true) as Hn by (unfold byte_ok; destruct (N.ltb_spec n 256); [reflexivity|lia]).
+    destruct (255 - 4 <? n); cbn [bytes_ok forallb]; rewrite Hn; reflexivity.
+Qed.
+
+(* every discriminant of a grammar fits a byte *)
+Fixpoint disc_ok_field (f : field) : bool :=
+  match f with FTag a => disc_ok_alts a | _ => true end
+with disc_ok_fields (fs : fields) : bool :=
+  match fs with FNil => true | FCons f fs' => disc_ok_field f && disc_ok_fields fs' end
+with disc_ok_alts (a : alts) : bool :=
+  match a with ANil => true | ACons d fs a' => (d <? 256) && disc_ok_fields fs && disc_ok_alts a' end.
+
+Theorem ser_bytes :
+  (forall f v, disc_ok_field f = true -> chk_field f v = true -> bytes_ok (ser_fval v) = true) /\
+  (forall fs vs, disc_ok_fields fs = true -> chk_fields fs vs = true -> bytes_ok (ser_fvals vs) = true) /\
+  (forall a d vs, disc_ok_alts a = true -> chk_alts a d vs = true ->
+                  bytes_ok (d :: ser_fvals vs) = true).
+Proof.
+  apply grammar_ind.
+  - intros [n|u|d vs] _ H; cbn [chk_field] in H; try discriminate. apply put_varint4_bytes.
+  - intros [n|u|d vs] _ H; cbn [chk_field] in H; try discriminate.
+    apply andb_prop in H as [_ H]. exact H.
+  - intros a IH [n|u|d vs] Hd H; cbn [chk_field] in H; try discriminate.
+    rewrite ser_fval_tag. apply IH; assumption.
+  - intros [|v vs] _ H; cbn [chk_fields] in H; [reflexivity|discriminate].
+  - intros f IHf fs IHfs [|v vs] Hd H; cbn [chk_fields] in H; [discriminate|].
+    cbn [disc_ok_fields] in Hd. apply andb_prop in Hd as [Hd1 Hd2]. apply andb_prop in H as [H1 H2].
+    rewrite ser_fvals_cons, bytes_ok_app, (IHf _ Hd1 H1), (IHfs _ Hd2 H2). reflexivity.
+  - intros d vs _ H. discriminate.
+  - intros d' fs IHfs a IHa d vs Hd H. cbn [disc_ok_alts] in Hd. cbn [chk_alts] in H.
+    apply andb_prop in Hd as [Hd Hd3]. apply andb_prop in Hd as [Hd1 Hd2].
+    destruct (N.eqb_spec d d') as [->|].
+    + rewrite bytes_ok_cons, Hd1, (IHfs _ Hd2 H). reflexivity.
+    + apply IHa; assumption.
+Qed.
